@@ -7,12 +7,12 @@
 // materialised for a prefix of the trace and a choice of lost unsynced tails, a new real kfake is started on the
 // image and the protocol-visible state is read back.
 //
-//	reset <wseed> <n>            -> T <trace items>          gen-1 workload on an empty fs
-//	crash <k> <tail>             -> R <state tokens>         image = trace[0:k] + tail choice; restart; read back
-//	cont <wseed> <n>             -> T <trace items>          continue on the instance of the latest `crash`
-//	                                                         (trace starts at that restart: recovery ops included)
-//	crash2 <k> <tail>            -> R <state tokens>         image = (image of latest crash) + trace2[0:k] + tail
-//	close2                       -> T <close ops> # B <state before Close> # R <state after restart>
+//	reset <wseed> <n> [flags]    -> T <trace items>          generation 1 on an empty fs (m: memoised, no live instance; r: rolls)
+//	cont <wseed> <n>             -> T <trace items>          more workload on the live instance (trace since its start)
+//	peek <k> <tail>              -> R <state tokens>         image = base + trace[0:k] + tail; restart; read back; no advance
+//	crash <k> <tail>             -> R <state tokens>         same, and the lineage continues on the restarted instance
+//	close                        -> T <trace> # B <state before Close> # R <state after restart>; lineage continues
+//	probe                        -> T <trace> # R <live state> after one plain produce to every partition of t0
 //
 // tail: K keep all unsynced tails, L lose all, K.i.n / L.i.n same but the i-th file with a tail keeps n bytes of it.
 package main
@@ -105,6 +105,26 @@ func annotate(name string, b []byte) string {
 		}
 		sort.Strings(ts)
 		return "topics," + joinOr(ts, ";")
+	case strings.HasSuffix(name, "/session_state.json.tmp"):
+		var ss struct {
+			Txns []struct {
+				PID    int64                      `json:"pid"`
+				Firsts map[string]map[int32]int64 `json:"txPartFirstOffsets"`
+			} `json:"inProgressTxns"`
+		}
+		if json.Unmarshal(b, &ss) != nil {
+			return "json"
+		}
+		var es []string
+		for _, t := range ss.Txns {
+			for topic, parts := range t.Firsts {
+				for part, first := range parts {
+					es = append(es, fmt.Sprintf("%d@%s-%d@%d", t.PID, topic, part, first))
+				}
+			}
+		}
+		sort.Strings(es)
+		return "sess," + joinOr(es, ";")
 	case strings.HasSuffix(name, ".json.tmp"):
 		return "json"
 	}
@@ -131,8 +151,14 @@ type inst struct {
 
 var seedOpts = []kfake.Opt{kfake.NumBrokers(1), kfake.SeedTopics(2, "t0"), kfake.DataDir(dataDir), kfake.SyncWrites()}
 
+// rollSegments: the lineage runs with log.segment.bytes=150, every second or third batch rolls the segment.
+var rollSegments = false
+
 func start(fs *cfs) (*inst, error) {
 	opts := append([]kfake.Opt{kfake.VerifWithFS(fs)}, seedOpts...)
+	if rollSegments {
+		opts = append(opts, kfake.BrokerConfigs(map[string]string{"log.segment.bytes": "150"}))
+	}
 	c, err := kfake.NewCluster(opts...)
 	if err != nil {
 		return nil, err
@@ -402,6 +428,9 @@ func (w *workload) run(n int) {
 		}
 		tp := hx.Pick(w.r, tps)
 		k := w.r.Intn(100)
+		if i == 0 && w.in.nparts["t0"] > 0 { // every generation appends to t0-0: later generations meet earlier data
+			tp, k = "t0-0", 0
+		}
 		switch {
 		case k < 18:
 			w.produce(tp, "p", nil)
@@ -479,6 +508,10 @@ func (w *workload) scripted() {
 	case 6: // two offset commits
 		w.commit("g0", "t0-0", 5)
 		w.commit("g0", "t0-0", 9)
+	case 8: // a transaction left open with an acknowledged plain batch above it
+		w.initPID(x0)
+		w.produce("t0-0", "t", x0)
+		w.produce("t0-0", "p", nil)
 	case 7: // transactional producer initialised twice (two pids.log entries), then a committed transaction
 		w.initPID(x0)
 		w.initPID(w.txs[1])
@@ -699,12 +732,13 @@ func (in *inst) readback() []string {
 
 // ---------------------------------------------------------------- run mode
 
+// runner holds one lineage: the image the live instance was started on, the operations recorded since that start
+// (as last printed in a `T` line), and the live instance.
 type runner struct {
-	ops1   []op  // gen-1 trace
-	cur    *inst // instance restarted by the latest `crash`
-	curImg *cfs  // its image before recovery
-	ops2   []op  // gen-2 trace (since that restart)
-	memo   map[string][]op
+	base  *cfs  // image (before recovery) the live instance started on; empty for generation 1
+	trace []op  // operations since that start, as last printed
+	live  *inst // nil after a memoised reset
+	memo  map[string][]op
 }
 
 func traceText(ops []op) string {
@@ -721,12 +755,26 @@ func traceText(ops []op) string {
 	return sb.String()
 }
 
-func (r *runner) reset(seed uint64, n int) string {
-	r.cur.stop()
-	r.cur, r.curImg, r.ops2 = nil, nil, nil
-	key := fmt.Sprintf("%d/%d", seed, n)
-	if ops, ok := r.memo[key]; ok {
-		r.ops1 = ops
+// sync appends what the live instance recorded since the last call.
+func (r *runner) sync() string {
+	if r.live == nil {
+		return ""
+	}
+	r.trace = append(append([]op{}, r.trace...), r.live.fs.takeTrace()...)
+	return r.live.fs.bad
+}
+
+// reset starts generation 1 on an empty file system. flags: m = the trace may be memoised (the group only peeks /
+// crashes, no live instance is kept), r = small log.segment.bytes so that segments roll.
+func (r *runner) reset(seed uint64, n int, flags string) string {
+	r.live.stop()
+	r.live, r.trace = nil, nil
+	r.base = newCFS()
+	rollSegments = strings.Contains(flags, "r")
+	memo := strings.Contains(flags, "m")
+	key := fmt.Sprintf("%d/%d/%s", seed, n, flags)
+	if ops, ok := r.memo[key]; ok && memo {
+		r.trace = ops
 		return "T " + traceText(ops)
 	}
 	fs := newCFS()
@@ -738,18 +786,18 @@ func (r *runner) reset(seed uint64, n int) string {
 		in.stop()
 		return "metadata-error"
 	}
-	w := newWorkload(in, seed, "a")
-	w.run(n)
-	ops := fs.takeTrace()
-	bad := fs.bad
-	in.stop()
-	if bad != "" {
+	r.live = in
+	newWorkload(in, seed, "a").run(n)
+	if bad := r.sync(); bad != "" {
 		return "fs-anomaly:" + bad
 	}
-	r.ops1 = ops
-	r.memo[key] = ops
-	hx.St.Add("trace1.items", len(ops))
-	return "T " + traceText(ops)
+	hx.St.Add("trace.items", len(r.trace))
+	if memo {
+		r.memo[key] = r.trace
+		r.live.stop()
+		r.live = nil
+	}
+	return "T " + traceText(r.trace)
 }
 
 func restartAndRead(img *cfs) (*inst, string) {
@@ -765,58 +813,77 @@ func restartAndRead(img *cfs) (*inst, string) {
 	return in, "R ok " + strings.Join(append(files, toks...), " ")
 }
 
-func (r *runner) crash(k int, tail string) string {
-	if r.ops1 == nil {
+// peek: crash image of the printed trace, restart, read back; the lineage is not advanced.
+func (r *runner) peek(k int, tail string) string {
+	if r.base == nil {
 		return "no-trace"
 	}
-	r.cur.stop()
-	r.cur, r.ops2 = nil, nil
-	k = k % (len(r.ops1) + 1)
-	img := image(newCFS(), r.ops1, k, tail)
-	r.curImg = img
-	in, res := restartAndRead(img)
-	r.cur = in
+	k = k % (len(r.trace) + 1)
+	in, res := restartAndRead(image(r.base, r.trace, k, tail))
+	in.stop()
 	return res
 }
+
+// crash: as peek, but the lineage continues on the restarted instance.
+func (r *runner) crash(k int, tail string) string {
+	if r.base == nil {
+		return "no-trace"
+	}
+	k = k % (len(r.trace) + 1)
+	img := image(r.base, r.trace, k, tail)
+	r.live.stop()
+	in, res := restartAndRead(img)
+	r.live, r.base, r.trace = in, img, nil
+	return res
+}
+
+var genTag = 0
 
 func (r *runner) cont(seed uint64, n int) string {
-	if r.cur == nil {
+	if r.live == nil {
 		return "no-instance"
 	}
-	w := newWorkload(r.cur, seed, "b")
-	w.run(n)
-	r.ops2 = append(append([]op{}, r.ops2...), r.cur.fs.takeTrace()...)
-	if r.cur.fs.bad != "" {
-		return "fs-anomaly:" + r.cur.fs.bad
+	genTag++
+	newWorkload(r.live, seed, fmt.Sprintf("g%d", genTag)).run(n)
+	if bad := r.sync(); bad != "" {
+		return "fs-anomaly:" + bad
 	}
-	hx.St.Add("trace2.items", len(r.ops2))
-	return "T " + traceText(r.ops2)
+	hx.St.Add("trace.items", len(r.trace))
+	return "T " + traceText(r.trace)
 }
 
-func (r *runner) crash2(k int, tail string) string {
-	if r.curImg == nil || r.ops2 == nil {
-		return "no-trace"
-	}
-	k = k % (len(r.ops2) + 1)
-	img := image(r.curImg, r.ops2, k, tail)
-	in, res := restartAndRead(img)
-	in.stop()
-	return res
-}
-
-func (r *runner) close2() string {
-	if r.cur == nil {
+// close: clean Close of the live instance, restart on what it left, read back.
+func (r *runner) close() string {
+	if r.live == nil {
 		return "no-instance"
 	}
-	before := r.cur.readback()
-	r.cur.stop()
-	closeOps := r.cur.fs.takeTrace()
-	all := append(append([]op{}, r.ops2...), closeOps...)
-	img := image(r.curImg, all, len(all), "K")
-	r.cur = nil
+	r.sync()
+	before := r.live.readback()
+	r.live.stop()
+	r.sync()
+	img := image(r.base, r.trace, len(r.trace), "K")
+	full := r.trace
 	in, res := restartAndRead(img)
-	in.stop()
-	return "T " + traceText(closeOps) + " # B " + strings.Join(before, " ") + " # " + res
+	r.live, r.base, r.trace = in, img, nil
+	return "T " + traceText(full) + " # B " + strings.Join(before, " ") + " # " + res
+}
+
+// probe: one plain produce to every partition of t0 on the live instance, then a live read back.
+func (r *runner) probe() string {
+	if r.live == nil {
+		return "no-instance"
+	}
+	genTag++
+	w := newWorkload(r.live, 1, fmt.Sprintf("p%d", genTag))
+	for _, tp := range w.tps() {
+		if strings.HasPrefix(tp, "t0-") {
+			w.produce(tp, "p", nil)
+		}
+	}
+	if bad := r.sync(); bad != "" {
+		return "fs-anomaly:" + bad
+	}
+	return "T " + traceText(r.trace) + " # R ok " + strings.Join(r.live.readback(), " ")
 }
 
 func run() {
@@ -825,21 +892,31 @@ func run() {
 		hx.St.Inc("op." + t[0])
 		switch t[0] {
 		case "reset":
-			return r.reset(uint64(hx.Atoi(t[1])), int(hx.Atoi(t[2])))
-		case "crash":
+			flags := ""
+			if len(t) > 3 {
+				flags = t[3]
+			}
+			return r.reset(uint64(hx.Atoi(t[1])), int(hx.Atoi(t[2])), flags)
+		case "peek", "crash":
 			hx.St.Inc("tail." + t[2][:1] + fmt.Sprint(strings.Count(t[2], ".")/2))
-			return r.crash(int(hx.Atoi(t[1])), t[2])
+			k := len(r.trace) // "e": the end of the printed trace
+			if t[1] != "e" {
+				k = int(hx.Atoi(t[1]))
+			}
+			if t[0] == "peek" {
+				return r.peek(k, t[2])
+			}
+			return r.crash(k, t[2])
 		case "cont":
 			return r.cont(uint64(hx.Atoi(t[1])), int(hx.Atoi(t[2])))
-		case "crash2":
-			hx.St.Inc("tail." + t[2][:1] + fmt.Sprint(strings.Count(t[2], ".")/2))
-			return r.crash2(int(hx.Atoi(t[1])), t[2])
-		case "close2":
-			return r.close2()
+		case "close":
+			return r.close()
+		case "probe":
+			return r.probe()
 		}
 		return "bad-op"
 	})
-	r.cur.stop()
+	r.live.stop()
 }
 
 func main() {
